@@ -262,7 +262,7 @@ Definition chunk_read (fuel : nat) (d : chunk) : dec (chunk * N) :=
   let h := c_hm d in
   let hm' := mkHM (hWSWG h) ws (hOFWG h) (hOF h) mb (hMBNL h) in
   let bes := map val_bent (fst (list_of bv)) in
-  match run_flat (secs_read (c_secs d)) (fst (bytes_of dv)) with
+  match run_fast (secs_read (c_secs d)) (fst (bytes_of dv)) with     (* = run_flat (Base.Dec.run_fast_eq) *)
   | FOk ss _ => Ret (mkChunk ss hm' bes [] (c_status d), lenN hrest + n2 + n3 + n4)
   | FErr e => Fail e
   | FPanic w => Crash w
